@@ -16,7 +16,8 @@ def io_replay(res):
     (never a value, never EOF / syntax)."""
     corpus = [b"(a b c)", b"#(1 2)", b"\"str\\x41;\"", b"  ; comment\n 42", b"#u8(1 2)", b"'(a . b)", b"#\\space x", b"12.5e3 ",
               b"-17 foo", b"(a ;c\n b)", b"#:kw", b"[a . b]", b"`(,a ,@b)", b"\xce\xbbx y", b"#\\\xce\xbb z", b"(\xf0\x9f\x98\x80)",
-              b"\"\xce\xbb\\x3bb;\"", (b"?\xce\xbb ?\\\xce\xbb", "elisp"), (b"\"\\101\xce\xbb\\u00e9\"", "elisp"), (b"[?a :k \"s\\^a\"]", "elisp")]
+              b"\"\xce\xbb\\x3bb;\"", b"1e+5 ", b"2.5e-3", b"-1E+10", b"1e5", b"#x1F ", b"#b-101", b"#nil", b"#t x", b"#vu8(1)", b"(1 . 2)", b"#\\x41 ",
+              b"184467440737095516150.5e1", (b"?\xce\xbb ?\\\xce\xbb", "elisp"), (b"\"\\101\xce\xbb\\u00e9\"", "elisp"), (b"[?a :k \"s\\^a\"]", "elisp")]
 
     def f(m):
         for item in corpus:
